@@ -500,6 +500,7 @@ func runC11(c *eng.Ctx) {
 	defer func() {
 		runC11FailedCreation(c, cr)
 		RunPassthrough(c, cr.next)
+		RunChainedOutputs(c, cr.next)
 		if C11Concurrent != nil {
 			C11Concurrent(c, cr.next)
 		}
